@@ -529,6 +529,10 @@ def run_case_c14(case):
                     else:
                         if entry is None or ow is True or (ow == "improved" and entry["score"] is not None and new_score < entry["score"]):
                             model[hk] = {"path": tree.get_path(), "score": new_score, "sliced": tuple(tree.sliced_inds), "canon": canon_a(q), "q": q}
+                        elif ow == "improved" and entry["score"] is not None and new_score <= entry["score"] * (1 + 1e-12) + 1e-12:
+                            # an exact tie: whether the old or the new order is kept is the library's choice (the stored
+                            # score does not get worse either way)
+                            model[hk] = {"path": None, "score": entry["score"], "sliced": None, "canon": entry["canon"], "q": entry["q"]}
                         elif ow == "improved" and entry["score"] is None:
                             model[hk] = {"path": None, "score": None, "sliced": None, "canon": entry["canon"], "q": entry["q"]}
                     stored_once = True
